@@ -301,3 +301,48 @@ impl AnyHand {
 }
 
 pub const RANK_ENTRIES: [&str; 5] = ["hand_rank_value", "hand_rank.value", "hand_rank_value_and_hand.0", "hand_rank_value_validated", "hand_rank_validated.value"];
+
+// ---------------------------------------------------------------------------------------------------------------------
+// Memory placement: the same container at the four possible positions of a 4-byte-aligned object inside a 16-byte
+// aligned block (offsets 0, 4, 8, 12). Code that reads the words "two at a time" or with wider loads behaves
+// differently at 4 mod 8; a harness that always ranks a fresh local sees only one placement.
+#[repr(C, align(16))]
+pub struct Placed<T, const K: usize> {
+    pad: [u32; K],
+    pub h: T,
+}
+
+/// Runs `f` on a reference to `value` stored at byte offset 4 * (k mod 4) of a 16-byte aligned block.
+#[inline]
+pub fn at_offset<T: Copy, R>(k: usize, value: T, f: impl FnOnce(&T) -> R) -> R {
+    match k & 3 {
+        0 => {
+            let p = Placed::<T, 0> { pad: [], h: value };
+            f(&std::hint::black_box(&p).h)
+        }
+        1 => {
+            let p = Placed::<T, 1> { pad: [0; 1], h: value };
+            f(&std::hint::black_box(&p).h)
+        }
+        2 => {
+            let p = Placed::<T, 2> { pad: [0; 2], h: value };
+            f(&std::hint::black_box(&p).h)
+        }
+        _ => {
+            let p = Placed::<T, 3> { pad: [0; 3], h: value };
+            f(&std::hint::black_box(&p).h)
+        }
+    }
+}
+
+#[cfg(test)]
+mod placement_tests {
+    use super::*;
+    #[test]
+    fn offsets() {
+        for k in 0..4 {
+            let a = at_offset(k, Seven::default(), |h| h as *const Seven as usize);
+            assert_eq!(a % 16, 4 * k);
+        }
+    }
+}
